@@ -157,6 +157,11 @@ INCLUDE_NETS = {
     "fail-user-error": ({"f5.mac": "L5: .word L5\n.error stop\nN5:\n"}, "f5.mac", "failed"),
     "self-twice": ({"st.mac": '.include "st.mac"\n.word 1\n.include "st.mac"\n'}, "st.mac", "failed"),
     "ping-pong-twice": ({"pa.mac": '.include "pb.mac"\n.include "pb.mac"\n', "pb.mac": '.include "pa.mac"\nnop\n.include "pa.mac"\n'}, "pa.mac", "failed"),
+    # an included file that sets its own base
+    "inc-own-link": ({"il.mac": ".link 3000\nIL: .word IL\n"}, "il.mac", "ok"),
+    "inc-own-dot-base": ({"idb.mac": ". = 3000\nID: .word ID\n"}, "idb.mac", "ok"),
+    "inc-own-link-in-repeat": ({"ilr.mac": '.repeat 2 { .include "il2.mac" }\n', "il2.mac": ".link 3000\n.word 1\n"}, "ilr.mac", "any"),
+    "inc-own-link-late": ({"ill.mac": "IL3: .word IL3\n.link 3000\n"}, "ill.mac", "ok"),
     "self-lazy-path": ({"lz.mac": '.include "lz.ma"<CH>\nCH = 155\n'}, "lz.mac", "failed"),
 }
 
@@ -171,9 +176,9 @@ def h_include_net(params, vals, ctx):
     ctx.observe_outcome(o)
     ctx.reach(True)
     if o.status == "ok":
-        return expect == "ok" and len(o.errors) == 0
+        return expect in ("ok", "any") and len(o.errors) == 0
     if o.status == "failed":
-        return expect == "failed" and len(o.errors) >= 1
+        return expect in ("failed", "any") and len(o.errors) >= 1
     return False
 
 
@@ -345,6 +350,10 @@ def obligations(tier, seed):
               ".word ^D\u0669\n", ".word ^RAB\u212a\n", ".ascii \"\\x\u0669\u0669\"\n", ".word ^X\uff11\n", ".word \uff10x1f\n", "mov #\u0661, r\u0661\n",
               "\u0131nc r0\n", ".\u017feven\n", "1\u0669: nop\nbr 1\u0669\n", ".rad50 /\u212a/\n"):
         add("lookalike", t + ".word {V1}\n")
+    for t in ("x: .repeat x / 1000 { .link 3000 }\n.word {V1}\n", "x: .repeat x / 1000 { . = 3000 }\n.word {V1}\n", ".word {V1}\n.repeat 1 { .link 3000 }\n",
+              "br fwd\nmov #fwd, r0\nfwd: .word {V1}\n", ".word fwd\n.repeat 2 { .word fwd }\nfwd: .word {V1}\n", ".even\nmov #fwd, r0\nfwd: .word {V1}\n",
+              "br fwd\n.repeat 2 { mov #fwd, r0 }\nfwd: .word {V1}\n", ".word fwd\n.ascii \"ab\"<fwd>\nfwd = {V1}\n", "clr fwd\nmov fwd, fwd\nfwd: .word {V1}\n"):
+        add("pending-first", t)
     add("huge", ".word 1 << 20000.\n")
     add("huge", "X9 = 1 _ \"ab\"\n.byte X9\n")
     for i, c in enumerate(CYCLES):
